@@ -15,6 +15,12 @@
      - the reader's buffer allocation (twice the announced length before any
        byte is read), whose failure kills the process instead of returning an error.
 
+   Document size accounting (Rules.MaxDocumentSizeBytes, [dcfg]): every byte the
+   decoder consumes is counted as it is consumed, ULEB128 fields and decimal
+   floats included (the Reader is the io.Reader of the field decoders), the
+   count starts at zero for every document, and the first read that takes the
+   running total above the limit is an error.
+
    An event whose payload cannot exist on the Go side (a byte above 255, a
    uint64 argument of 2^64 or more, ...) encodes to None. *)
 From CE Require Export Base.Prelude Base.LE Base.Uleb Model.Events Model.FloatBits Gen.CbeConsts.
@@ -167,7 +173,7 @@ Definition enc_big_decimal (d : dfloat) : option bytes :=
   match d with
   | DFin neg c e =>
       if negb (is_i32 e) then None
-      else if c =? 0 then Some (cbeTypeDecimal :: (if neg then cfNegativeZero else cfZero))
+      else if c =? 0 then Some (enc_zero neg)       (* the same canonical zero as OnDecimalFloat / OnFloat *)
       else Some (cbeTypeDecimal :: uleb_encode (cf_field_big neg e) ++ uleb_encode c)
   | DInf neg => Some (enc_infinity neg)
   | DQNan => Some (enc_nan false)
